@@ -74,6 +74,9 @@ served as the regression test):
 | C06-r101 | C06 (and every other check) | the encoders return one package-level `[]byte{0}` for the identity: every caller shares it, a write by one changes the encoding of the identity for all | `C20-4` (a result must not be package-level memory), evaluated by every check as part of its bottom layer |
 | C10-r101 | C10 | the identity test moved out of `newPublicKeyFromPoint` while `ParseASN1PublicKey` started to call it directly: an SPKI wrapping `00` yields a key holding infinity; only C12 decided that parser | `C12-5` is also evaluated by C10 and C18 (the parser is a constructor of key objects) |
 | (sweep) `(*[32]byte)(src[33:64])`, `src[1:34]` | C06, C12, C13 | found by the AST mutation sweep (`scripts/mutsweep.py`), killed by the tests but silent in every check: a slice-to-array conversion of a too short slice and a slice bound beyond the tested length were *events* nobody read | a constant out-of-range access is a reachable panic of the run (every "no panic" rule decides it); rule `index-safety` (bounds checks discharged from the path condition by Fourier-Motzkin, capacity >= length only) now also for the SEC 1 decoders, `VerifyRaw`, `Verify`, `sign`, `Sign`, ECDH, the key constructors, `RecoverPublicKey`, `signSchnorr`, the hash-to-curve drivers |
+| C05-r112 | C05 | a new exported `FixedBaseTable` whose `Set(G)` fast path points the table at the embedded generator table and whose `Set(H)` rebuilds "its" table in place: 8160 generator entries overwritten; C20 and C18 reported it (receiver retains package-level memory, `C20-4`), C05 did not - the new API is not reachable from C05's routines and the write goes through the *receiver*, not through the variable | `C20-1` also follows objects that are made to point into package-level memory: if any function stores (or returns an object holding) a pointer into variable g in an object of module type T, every write through an operand of type T counts as a write to g; the obligation is keyed by the variable, so every property whose code reads the tables reports it |
+| C10-r111 | C10 | `NewPointFromCoords` decodes y with the reducing `SetBytes` and drops the range check: `(x, y0 + p)` is accepted and `NewPublicKeyFromPoint` makes a key of it; C06 / C18 reported it, C10 did not (the raw-coordinate constructor is the one Point constructor no routine of C10 calls) | C10 evaluates `C06-1/accept/NewPointFromCoords` (constructors of the operands of `NewPublicKeyFromPoint`) |
+| (not kept) C03-r111 | - | `rescale` made to write its receiver before reading the argument's Z: wrong for `p.rescale(p)` on an identity - but no exported operation calls `rescale` with an aliased receiver, the demonstration had to call the unexported routine | none: the API behaves identically, so silence is the right answer; the change is not filed as a seed |
 | C19-r22 | C19 (after the relevance filter was added) | reachability was computed in the amd64 configuration only; the portable lookup is the only caller that passes non-0/1 values to `Uint64Equal` | relevance is the union over every loaded build configuration |
 ''')
 s = open('/verif/DESIGN.md').read()
